@@ -39,7 +39,7 @@ def faults(quick: bool):
     sel_t = C09.TYPE_RULES if not quick else C09.TYPE_RULES[::3]
     sel_d = C09.DEF_RULES if not quick else C09.DEF_RULES[::4]
     for rid, _, ty, _ in sel_t:
-        for where in ("main", "main2", "import", "version"):
+        for where in ("main", "main2", "import", "version", "main-doc2", "import-doc2"):
             out.append(("rule:%s@%s" % (rid, where), ("rule", where, C09.HELPERS + C09.embed("field", ty, "Inj"))))
     for rid, _, defs in sel_d:
         for where in ("main", "import", "version"):
@@ -64,6 +64,9 @@ def faults(quick: bool):
     out.append(("yaml:garbage-import", ("files", {"lib/zz.yml": "\tbad: : :\n"})))
     out.append(("override:bad-key", ("args", ["-c", "nokey=1"])))
     out.append(("override:bad-value", ("args", ["-c", "cpp.generateNDJson=maybe"])))
+    for sec_key in ("python.outputDir", "json.outputDir", "matlab.outputDir", "cpp.sourcesOutputDir"):
+        # an empty output directory given on the command line: the later back ends fail after the earlier ones have written
+        out.append(("override:empty-%s" % sec_key, ("args", ["-c", sec_key + "="])))
     return out
 
 
@@ -85,12 +88,14 @@ def apply_fault(base, outcfg, fault):
     man_path = os.path.join(W, "main", "_package.yml")
     if kind == "rule":
         _, where, defs = fault
-        tgt = {"main": "main/model.yml", "main2": "main/sub/zz_extra.yaml", "import": "lib/lib.yml", "version": "v0/model.yml"}[where]
+        tgt = {"main": "main/model.yml", "main2": "main/sub/zz_extra.yaml", "import": "lib/lib.yml", "version": "v0/model.yml",
+               "main-doc2": "main/model.yml", "import-doc2": "lib/lib.yml"}[where]
         p = os.path.join(W, tgt)
         os.makedirs(os.path.dirname(p), exist_ok=True)
         a, _, b = defs.partition("\n---\n")
         with open(p, "a") as f:
-            f.write("\n" + a + "\n")
+            # "-doc2": the fault sits in a second YAML document of an existing model file
+            f.write(("\n---\n" if where.endswith("-doc2") else "\n") + a + "\n")
         if b:
             with open(os.path.join(os.path.dirname(p), "zz_second.yml"), "w") as f:
                 f.write(b)
